@@ -9,6 +9,7 @@
   object reachable from the roots but not registered would be adopted by the clone and healed in place.
 -/
 import PyGqlModel.Lemmas.HeapNames
+import PyGqlModel.Lemmas.HeapExtAttrs
 import PyGqlModel.Props.C14
 
 set_option linter.unusedSimpArgs false
@@ -169,6 +170,41 @@ theorem transform_intact (cfg : Cfg) (hd : cfg.deepClone = true) (hk : cfg.keepA
     exact transformFrom_names cfg fuel vs hv h1 s1 h' s' e n (clone_names cfg hd hk fuel s h h1 s1 hr n hn)
 
 example : NoTypeDelete (.camel id) ∧ NoTypeDelete (.sdir (fun _ _ => false) (fun _ _ => none)) := ⟨trivial, trivial⟩
+
+/-! #### untouched attributes survive an extension (S2) -/
+
+/-- PARTIAL form of `untouched_preserved` for `extend_schema` — proved for ALL heaps, schemas with distinct registered
+    names (a Python dict) and extension documents that do not redefine a registered name: the object registered under
+    the name of every source type is a rebuilt copy that keeps name, kind, description, default resolver, type resolver
+    and (a prefix of) the enum values exactly as far as the `_extend_*` constructors pass them on (`TypeKept cfg`).
+    What is missing for the full statement: the same for the member objects (fields: resolver, subscription resolver,
+    python name, description, deprecation; arguments / input fields: default, python name, description) — their
+    rebuild functions are `extendFields` / `extendArgs`, tied by the correspondence and by `extend_preserves_witness_fixed`. -/
+theorem untouched_preserved_extend_partial (cfg : Cfg) (hk : cfg.extKeepAll = true) (ext : Ext) (s : Schema) (h : Heap)
+    (hnd : (names s).Nodup) (hnew : ∀ e, e ∈ ext.newTypes → e.1 ∉ names s)
+    (n : String) (a : Addr) (t : TypeO) (hm : (n, a) ∈ s.types) (hp : isProtected n = false) (ht : h.readType a = some t) :
+    ∃ a' t', lookup (extend cfg ext s h).2.types n = some a' ∧ (extend cfg ext s h).1.readType a' = some t' ∧ TypeKept cfg t t' :=
+  extend_type_kept cfg hk ext s h hnd hnew n a t hm hp ht
+
+/-- with every `_extend_*` fix in place (`Cfg.fixed`, the variant of /repo HEAD) `TypeKept` is plain equality of the attributes -/
+theorem typeKept_fixed (t t' : TypeO) (k : TypeKept Cfg.fixed t t') :
+    t'.name = t.name ∧ t'.kind = t.kind ∧ t'.desc = t.desc ∧ t'.dres = t.dres ∧ t'.rtype = t.rtype ∧ ∃ added, t'.values = t.values ++ added := by
+  obtain ⟨h1, h2, _, h4, h5, h6, h7⟩ := k
+  refine ⟨h1, h2, by simpa [Cfg.fixed] using h4, by simpa [Cfg.fixed] using h5, ?_, h7⟩
+  cases hk : t.kind <;> simp [hk, Cfg.fixed] at h6 <;> exact h6
+
+/-- the type-resolver clause of S2 at full strength for the fixed variant (the statement refuted for `Cfg.legacy` by
+    `extend_keeps_type_resolvers_refuted_legacy`), for schemas with distinct names -/
+theorem extend_keeps_type_resolvers_fixed (ext : Ext) (s : Schema) (h : Heap)
+    (hnd : (names s).Nodup) (hnew : ∀ e, e ∈ ext.newTypes → e.1 ∉ names s)
+    (n : String) (a : Addr) (t : TypeO) (hm : (n, a) ∈ s.types) (hp : isProtected n = false) (ht : h.readType a = some t) :
+    ∃ a' t', lookup (extend Cfg.fixed ext s h).2.types n = some a' ∧ (extend Cfg.fixed ext s h).1.readType a' = some t' ∧
+      t'.rtype = t.rtype ∧ t'.dres = t.dres ∧ t'.desc = t.desc := by
+  obtain ⟨a', t', h1, h2, k⟩ := extend_type_kept Cfg.fixed rfl ext s h hnd hnew n a t hm hp ht
+  obtain ⟨_, _, k3, k4, k5, _⟩ := typeKept_fixed t t' k
+  exact ⟨a', t', h1, h2, k5, k4, k3⟩
+
+example : (names s0).Nodup ∧ (∀ e, e ∈ zed.newTypes → e.1 ∉ names s0) ∧ (("Pet", 1) ∈ s0.types) := by decide
 
 /-- the working tree's variant (re-extracted on every run) is the deep-clone one: the theorem applies to it -/
 theorem current_clone_frames_source (hd : PyGql.Generated.HeapCfg.currentCfg.deepClone = true) :
